@@ -412,7 +412,12 @@ func (g *genState) choiceOnly(depth int, cfg bool) *Node {
 	ch := &Node{Kind: "choice", Name: g.name("ch")}
 	for i := 0; i < 2; i++ {
 		cs := &Node{Kind: "case", Name: g.name("cs")}
-		cs.Children = append(cs.Children, g.leaf(cfg))
+		if depth < g.o.MaxDepth+2 && rapid.IntRange(0, 3).Draw(g.t, "deeper-choice?") == 0 {
+			// the case holds nothing but a further choice: its data is one more level of choices down
+			cs.Children = append(cs.Children, g.choiceOnly(depth+2, cfg))
+		} else {
+			cs.Children = append(cs.Children, g.leaf(cfg))
+		}
 		ch.Children = append(ch.Children, cs)
 	}
 	return ch
